@@ -15,7 +15,7 @@ import (
 func init() {
 	register(&Property{
 		ID:      "C15",
-		Runtime: RuntimeCore,
+		Runtime: append(append([]string{}, RuntimeCore...), "./handler"),
 		Run:     runC15,
 		Explanation: "Structure of the persisted-query binding, on every path of extension.AutomaticPersistedQuery: (add-guarded) every Cache[string].Add(ctx,k,v) is edge-dominated by computeQueryHash(v)==k over the same " +
 			"access paths with no store between guard and call, and computeQueryHash is hex(sha256(arg)); (mismatch-rejected) the != edge only reaches returns of a non-nil error; (lookup-only-when-empty) Cache.Get is " +
@@ -327,6 +327,9 @@ func runC15(c *Ctx) {
 
 	c15CacheKeyIdentity(c)
 	rawQueryAfterMutators(c)
+	forwardersKeepOrder(c, "forwarders-keep-order", modPath("handler"), pkgGraphql, pkgExtension, modPath("graphql/handler/lru"))
+	decoderUsesNumber(c)
+	c09StatusVsDispatch(c, nil)
 	apqVersionGate(c)
 	getParamFields(c)
 	// a hash-only request must not find a previous request's text in the pooled request object (C07/pool-reset), and an error
